@@ -113,8 +113,13 @@ def do_run(name, checks, tier):
             saved[ev] = open(ev).read()
     rc, out = sh(f"git -C {REPO} apply {d}/patch.diff")
     if rc:
-        print("patch does not apply:", out)
-        return 2
+        # the repository moved on (later fix: commits touched the context lines): three-way apply, unstage again
+        rc, out = sh(f"git -C {REPO} apply --3way {d}/patch.diff && git -C {REPO} reset -q")
+        if rc:
+            sh(f"git -C {REPO} reset -q; git -C {REPO} checkout -- .")
+            print("patch does not apply:", out)
+            return 2
+        print("(patch applied three-way: context changed by later commits)")
     try:
         for c in checks:
             t0 = time.time()
